@@ -149,6 +149,15 @@ def run(tier: str, seed: int, rep: Report, model: Model) -> dict:
         muts.append(s)
     rep.streams["mutated_valid"] = len(muts)
     strings += muts
+    # identifier stream: legal and illegal names in every position a name can take (before '=', after '*', as operand)
+    names = ["a", "Ab_1", "x9", "n_", "a__b", "_", "_n", "__x", "_1", "1a", "9", "a.b", "a-b", "a b", "", "A", "é", "a$", "$a", "a'", "min", "max",
+             "isqrt", "mina", "Min", "a:", "[a]", "a,b", "...", "..", "*", "**"]
+    ident = []
+    for nm in names:
+        for tmpl in ("{n}", "{n}=3", "{n}=b+1", "*{n}", "{n}+1", "2*{n}", "min({n},1)", "isqrt({n})", "b {n}", "{n}=", "x={n}", "x={n}+1", "({n})", "*{n} b", "{n}={n}"):
+            ident.append(tmpl.format(n=nm))
+    rep.streams["identifier_positions"] = len(ident)
+    strings += ident
     noise = ["".join(chr(rnd.randrange(32, 127)) for _ in range(rnd.randrange(1, 10))) for _ in range(n_noise)]
     rep.streams["ascii_noise"] = len(noise)
     strings += noise
